@@ -13,6 +13,7 @@
   `reserve` followed by `insert`s (map.rs:3099-3115) and covered as such.
 -/
 import GriddleModel.Lemmas.Steps
+import GriddleModel.Lemmas.Small
 namespace Griddle.C01
 
 theorem inv_new (R : Nat) : Inv R Raw.new := by
@@ -49,6 +50,42 @@ theorem run_refines (c : Cfg) (hR : 0 < c.R) (orcs : Nat → Orc) (ops : List Op
       Inv c.R r.1 ∧ (∀ k, absOf r.1 k = (specRun (absOf m) ops).1 k) ∧
       retsAgree r.2 (specRun (absOf m) ops).2) :=
   Griddle.run_refines c hR orcs ops m h hpre
+
+/-- Every map a program can construct starts with a main table that passed hashbrown's layout
+    check (or is the unallocated singleton): `new`, `with_capacity`. -/
+theorem small_new : Small Raw.new := Griddle.small_new
+
+theorem small_withCapacity (c : Cfg) (cap : Nat) (r : Raw × Cost) (h : Raw.withCapacity c cap = .ok r) :
+    Small r.1 := by
+  unfold Raw.withCapacity at h
+  cases ht : HB.tryWithCapacity c cap with
+  | error e => rw [ht] at h; cases e <;> cases h
+  | ok t =>
+    rw [ht] at h
+    cases h
+    exact tryWithCapacity_small ht
+
+/-- **Every history refines the reference map — no side condition.**  The size invariant
+    (`Small`: the main table passed the layout check, so it has fewer than `2^63` buckets) is
+    established by `new` / `with_capacity` and preserved by every call (`step_small`); with the
+    headroom invariant it makes `shrink_to`'s unchecked sums fit a `usize`, which discharges
+    `runPre`. -/
+theorem run_refines_unconditional (c : Cfg) (hR : 0 < c.R) (orcs : Nat → Orc) (ops : List Op) (m : Map)
+    (h : Inv c.R m) (hs : Small m) :
+    OkOrCap (run c m ops orcs) (fun r =>
+      Inv c.R r.1 ∧ (∀ k, absOf r.1 k = (specRun (absOf m) ops).1 k) ∧
+      retsAgree r.2 (specRun (absOf m) ops).2) :=
+  Griddle.run_refines_small c hR orcs ops m h hs
+
+/-- in particular from a fresh map -/
+theorem run_refines_from_new (c : Cfg) (hR : 0 < c.R) (orcs : Nat → Orc) (ops : List Op) :
+    OkOrCap (run c Raw.new ops orcs) (fun r =>
+      Inv c.R r.1 ∧ (∀ k, absOf r.1 k = (specRun (fun _ => none) ops).1 k) ∧
+      retsAgree r.2 (specRun (fun _ => none) ops).2) := by
+  have := run_refines_unconditional c hR orcs ops Raw.new (inv_new c.R) small_new
+  have h0 : absOf Raw.new = fun _ => none := by funext k; rfl
+  rw [h0] at this
+  exact this
 
 /-- `len()` is the number of stored entries, `is_empty()` accordingly -/
 theorem len_eq_card (t : Raw) : t.len = t.ents.length := Raw.len_eq t
